@@ -152,6 +152,23 @@ class NoPath(AnalysisError):
     pass
 
 
+def zero_atoms(r):
+    """atoms that the path established to be zero (a decided `x == 0` / `not x != 0` on a single-term quantity)"""
+    out = set()
+    for ent in r.facts.signs:
+        if not ent[1] <= {"0"}:
+            continue
+        e = ent[0].expand()
+        if len(e.n) != 1:
+            continue
+        (mono, c), = e.n.items()
+        # a factor that occurs with a negative power (a denominator) or is flagged positive cannot be the vanishing one
+        cand = [a for a, p in mono if not a.pos and a.kind != "base" and not (isinstance(p, int) and p < 0)]
+        if len(cand) == 1:
+            out.add(cand[0])
+    return out
+
+
 def views(SA, footprint, analytic, ctx="generic", **kw):
     S, rets = SA.returns(footprint, analytic, ctx=ctx, **kw)
     # a path that rests on a test the interpreter could not model (it explored both outcomes blindly) is no basis for a
@@ -161,6 +178,12 @@ def views(SA, footprint, analytic, ctx="generic", **kw):
         raise NoPath("every returning path of the solver rests on a test that is not modelled (%s) (footprint=%s analytic=%s ctx=%s)" % (
             next(d[0] for r in rets for d in r.path if d[0].startswith("unknown test"))[:80], footprint, analytic, ctx))
     rets = solid
+    # a path on which the code established that an input quantity vanishes (an all-zero source, a zero mean flux) covers a
+    # special case only: the rules are evaluated on the general paths, and R-PATHS compares each special-case path with its
+    # general sibling under that fact (props_solver.path_uniformity)
+    general = [r for r in rets if not zero_atoms(r)]
+    if general:
+        rets = general
     if not rets:
         raise NoPath("no returning path of the solver (footprint=%s analytic=%s ctx=%s)%s" % (
             footprint, analytic, ctx, "; faults: " + "; ".join(SA.faults) if SA.faults else ""))
